@@ -315,9 +315,12 @@ def fstep (cfg : FCfg) (s : FSt) : FOp → FSt
   | .readFloat => { s with ok := true }
   | .driverAssignIdx j => if validIdx cfg j then { announceIdx cfg j s with ok := true } else { s with ok := false }
   | .driverAssignFloat x =>
-    -- `Parameter.__set__`: the cache entry takes any value of the FloatRange; the index is not touched
-    if x < cfg.lo || cfg.hi < x then { s with ok := false }
-    else { femit { s with value := x } (.value x) with ok := true }
+    -- `Parameter.__set__`: the cache entry takes any float (converted, not range-checked); the index is not touched
+    { femit { s with value := x } (.value x) with ok := true }
+
+/-- initial state: the index parameter starts with the default of its enum, the float parameter with the
+value of that index (`FloatEnumParam.finish`, repaired code) -/
+def finit (cfg : FCfg) (idx0 : Int) : FSt := { idx := idx0, value := (cfg.vdict.lookup idx0).getD cfg.lo }
 
 def fstep1 (cfg : FCfg) (s : FSt) (op : FOp) : FSt := fstep cfg { s with evs := [] } op
 def frun (cfg : FCfg) (s : FSt) (ops : List FOp) : List FSt := Frappy.Scan.scan (fstep1 cfg) s ops
@@ -397,13 +400,14 @@ def lstep (cfg : LCfg) (s : LSt) : LOp → LSt
   | .writeMax x => if cfg.hasMax && inRange cfg x then lemit { s with max := x } (.max x) else lfail s
   | .writeLimits a b =>
     if cfg.hasLimits && validLimits cfg a b then lemit { s with limits := (a, b) } (.limits a b) else lfail s
-  | .driverAssign x => if inRange cfg x then lemit { s with value := x } (.value x) else lfail s
+  -- driver-side assignments: `announceUpdate` converts (`datatype(value)`), it does not check ranges or the order
+  | .driverAssign x => lemit { s with value := x } (.value x)
   | .driverAssignMin x =>
-    if cfg.hasMin && inRange cfg x then lemit { s with min := x } (.min x) else lfail s
+    if cfg.hasMin then lemit { s with min := x } (.min x) else lfail s
   | .driverAssignMax x =>
-    if cfg.hasMax && inRange cfg x then lemit { s with max := x } (.max x) else lfail s
+    if cfg.hasMax then lemit { s with max := x } (.max x) else lfail s
   | .driverAssignLimits a b =>
-    if cfg.hasLimits && validLimits cfg a b then lemit { s with limits := (a, b) } (.limits a b) else lfail s
+    if cfg.hasLimits then lemit { s with limits := (a, b) } (.limits a b) else lfail s
 
 def lstep1 (cfg : LCfg) (s : LSt) (op : LOp) : LSt := lstep cfg { s with evs := [] } op
 def lrun (cfg : LCfg) (s : LSt) (ops : List LOp) : List LSt := Frappy.Scan.scan (lstep1 cfg) s ops
